@@ -262,8 +262,21 @@ def _shapes_compatible(a: Optional[ir.Value], b: Optional[ir.Value]) -> bool:
     ta, tb = _shape_tuple(a), _shape_tuple(b)
     if ta is None or tb is None or len(ta) != len(tb):
         return False
-    for da, db in zip(ta, tb):
+    dims_a = _shape_dims_seq(a.shape) if a is not None else None
+    dims_b = _shape_dims_seq(b.shape) if b is not None else None
+    if dims_a is None or dims_b is None:
+        return False
+    for da, db, raw_a, raw_b in zip(ta, tb, dims_a, dims_b):
         if da == -1 or db == -1:
+            # Two different named symbols are different sizes in general, and a
+            # symbol is not interchangeable with a concrete size; only an
+            # unnamed (unknown) dimension acts as a wildcard.
+            if da != -1 or db != -1:
+                return False
+            name_a = getattr(raw_a, "value", None)
+            name_b = getattr(raw_b, "value", None)
+            if name_a is not None and name_b is not None and name_a != name_b:
+                return False
             continue
         if da != db:
             return False
